@@ -319,6 +319,60 @@ def rule_2(ctx):
                     ctx.expect(registration, node, f'{qual} grows module-level `{name}`',
                                f'module-level container `{name}` is extended from {qual}(), which is not an import-time '
                                'registration decorator: state accumulates across evaluations')
+    # class-level containers that grow from methods (self.X[...] = ..., cls.X.append(...)): shared by all instances, never freed
+    grow = ('append', 'add', 'update', 'extend', 'setdefault', 'insert')
+    for m in ctx.repo.modules.values():
+        for cname, cnode in m.classes.items():
+            cref = ctx.res.class_ref(m, cnode)
+            shared = {}
+            for cm_, cn_ in ctx.res.mro(cref):
+                for st in cn_.body:
+                    tg = st.targets[0] if isinstance(st, ast.Assign) and len(st.targets) == 1 else (st.target if isinstance(st, ast.AnnAssign) else None)
+                    val = getattr(st, 'value', None)
+                    if isinstance(tg, ast.Name) and (isinstance(val, (ast.Dict, ast.List, ast.Set)) or (
+                            isinstance(val, ast.Call) and ctx.res.resolve(val.func, cm_) in (
+                                'builtin:dict', 'builtin:list', 'builtin:set', 'ext:collections.defaultdict', 'ext:collections.OrderedDict'))):
+                        shared.setdefault(tg.id, cn_.name)
+            if not shared:
+                continue
+            own = set()
+            for st in ast.walk(cnode):
+                if isinstance(st, ast.Assign):
+                    for t in st.targets:
+                        if isinstance(t, ast.Attribute) and isinstance(t.value, ast.Name) and t.value.id == 'self':
+                            own.add(t.attr)         # rebound per instance: not the class-level object
+            for st in cnode.body:
+                if not isinstance(st, ast.FunctionDef):
+                    continue
+                first = st.args.args[0].arg if st.args.args else None
+                for node in walk_local(st):
+                    tgt = None
+                    if isinstance(node, ast.Call) and isinstance(node.func, ast.Attribute) and node.func.attr in grow:
+                        tgt = node.func.value
+                    elif isinstance(node, (ast.Assign, ast.AugAssign)):
+                        for t in (node.targets if isinstance(node, ast.Assign) else [node.target]):
+                            if isinstance(t, ast.Subscript):
+                                tgt = t.value
+                    if isinstance(tgt, ast.Attribute) and isinstance(tgt.value, ast.Name) and tgt.attr in shared and tgt.attr not in own \
+                            and (tgt.value.id == first or tgt.value.id in m.classes or tgt.value.id == '__class__'):
+                        ctx.bad(node, f'{cname}.{st.name} grows class-level `{tgt.attr}`',
+                                f'the container `{tgt.attr}` is created once in the body of class {shared[tgt.attr]} and shared by every instance; '
+                                f'{cname}.{st.name}() stores into it on the evaluation path: what it holds (values, exception instances with their '
+                                'tracebacks, contexts) lives as long as the process')
+    # raise of an exception object that was taken out of a container: the same instance is raised again and again
+    for m in ctx.repo.modules.values():
+        for qual, fn in m.funcs.items():
+            for r in flow.raises_of(fn):
+                if not isinstance(r.exc, ast.Name):
+                    continue
+                defs = [a.value for a in walk_local(fn) if isinstance(a, ast.Assign) and any(isinstance(t, ast.Name) and t.id == r.exc.id for t in a.targets)]
+                stored = [d for d in defs if isinstance(d, ast.Subscript) or (
+                    isinstance(d, ast.Call) and isinstance(d.func, ast.Attribute) and d.func.attr in ('get', 'pop', 'setdefault'))]
+                handler_names = {h.name for h in ast.walk(fn) if isinstance(h, ast.ExceptHandler) and h.name}
+                if stored and r.exc.id not in handler_names:
+                    ctx.bad(r, f'raise of a stored exception instance in {qual}',
+                            f'`raise {r.exc.id}` raises an object read from a container ({ast.unparse(stored[0])[:60]}): every raise appends frames to the '
+                            '__traceback__ of that one instance, keeping the frames and their locals alive - memory grows with the number of evaluations')
     ctx.floor(1, 'decorator scan (+ raise/containers sites)')
 
 
@@ -463,10 +517,72 @@ def rule_4(ctx):
     ctx.floor(3, 'namespace + decimal context sites')
 
 
+ORDER_CELLS = {
+    'A1': 5, 'A2': 0, 'A3': 7.5, 'A4': 'abc', 'A5': True, 'B1': '=A1+1', 'B2': '=A2*2', 'B3': '=A3-1', 'C1': '=B1*2+B1', 'D1': '=SUM(B1:B3)+A2',
+    'E1': '=D1-C1', 'F1': '=IF(A2>0,B1,C1)', 'G1': '=AND(B1:B3)', 'H1': '=SUM(A1:A3,B1:B3)', 'I1': '=A4&A1&A5', 'J1': '=ABS(B3-A1*3)',
+    'K1': '=IF(A5,LEN(A4),0)+ABS(-A1)', 'L1': '=MAX(A1:A3)>=MIN(B1:B3)', 'M1': '=1/A2', 'N1': '=IFERROR(M1,B1)', 'O1': '=ABS(A1)&LEFT(A4,2)',
+}
+_ORDER_ADDRS = ['B1', 'C1', 'D1', 'E1', 'F1', 'G1', 'H1', 'I1', 'J1', 'K1', 'L1', 'M1', 'N1', 'O1']
+
+
+def rule_6(ctx):
+    """A whole witness workbook, interpreted as written: every formula cell evaluated alone in a fresh model is the reference;
+    evaluating all of them in one model - in written order twice, in reverse order - and on a second Evaluator over the same
+    model gives the same values; an Evaluator with its own namespace uses its own functions whoever evaluated first; constants,
+    formula texts and defined names of the model are what they were; models compiled later in the same process are not affected
+    by earlier ones."""
+    from . import scenarios as S
+    from . import workbook as W
+    anchor = ctx.mod('evaluator').func('Evaluator.evaluate')
+    cache = {}
+    why = 'A value may not depend on what was evaluated before, how often, or by which evaluator.'
+    n = S.check_orders(ctx, anchor, 'order', ORDER_CELLS, _ORDER_ADDRS, why=why, cache=cache)
+    # constants / formula texts / names untouched
+    wb = W.Workbook(ctx, ORDER_CELLS)
+    before = S.constants_snapshot(wb)
+    for a in _ORDER_ADDRS:
+        wb.value('Sheet1!' + a)
+    after = S.constants_snapshot(wb)
+    diff = sorted(k for k in set(before) | set(after) if before.get(k) != after.get(k))
+    n += 1
+    ctx.expect(not diff, anchor, 'evaluation leaves constants, formula texts, names and the set of cells alone',
+               f'after evaluating every formula cell the model differs at {diff[:6]}: ' + '; '.join(f'{k}: {before.get(k)!r} -> {after.get(k)!r}' for k in diff[:3]))
+    # evaluators with namespaces of their own over one model
+    for first in ('plain', 'custom'):
+        wb = W.Workbook(ctx, ORDER_CELLS)
+        wb.evaluator('plain')
+        wb.evaluator_with('custom', {'ABS': 'SIGN'})
+        order = ['plain', 'custom'] if first == 'plain' else ['custom', 'plain']
+        got = {}
+        for key in order + order:
+            for a in ('J1', 'K1', 'O1'):
+                got[(key, a)] = wb.value('Sheet1!' + a, key=key)
+        want = {('plain', 'J1'): ('Number', 8.5), ('custom', 'J1'): ('Number', -1), ('plain', 'K1'): ('Number', 8), ('custom', 'K1'): ('Number', 2),
+                ('plain', 'O1'): ('Text', '5ab')}
+        for k, w in want.items():
+            n += 1
+            ctx.expect(S.same(got[k], w), anchor, f'evaluator with its own namespace ({k[0]} evaluator, {k[1]}, {first} evaluator first)',
+                       f'{k[1]} evaluates to {got[k]!r} on the {k[0]} evaluator (the custom one maps ABS to SIGN) when the {first} evaluator goes first; '
+                       f'expected {w!r}: the function table is the evaluator\'s, not the model\'s')
+    # a second model compiled in the same process (same world): same formula texts, other inputs and other name bindings
+    world = None
+    for cells, want in (({'A1': 2, 'B1': 3, 'C1': '=A1+B1*2', 'C2': '=(A1+B1)*2', 'C3': '=SUM(A1:B1)'}, {'C1': 8, 'C2': 10, 'C3': 5}),
+                        ({'A1': 10, 'B1': 1, 'C1': '=A1+B1*2', 'C2': '=(A1+B1)*2', 'C3': '=SUM(A1:B1)', 'C4': '=A1+(B1*2)'}, {'C1': 12, 'C2': 22, 'C3': 11, 'C4': 12})):
+        wb = W.Workbook(ctx, cells, world=world)
+        world = wb.world
+        for a, w in want.items():
+            got1 = wb.value('Sheet1!' + a)
+            n += 1
+            ctx.expect(S.same(got1, ('Number', w)), anchor, f'models compiled one after the other in one process: {cells[a]} over A1={cells["A1"]}',
+                       f'{a} = {cells[a]} evaluates to {got1!r} in a model compiled after another model with the same formula texts; expected {w}')
+    ctx.floor(60, 'order / evaluator / process scenarios')
+
+
 RULES = [
     ('C05.1', 'write-set of the evaluation path', rule_1),
     ('C05.2', 'nothing retains objects across evaluations', rule_2),
     ('C05.3', 'nondeterminism sources only in volatile functions', rule_3),
     ('C05.4', 'no shared mutable global state', rule_4),
     ('C05.5', 'memo scope (shared with C04.2)', c04.rule_2),
+    ('C05.6', 'whole witness workbook: orders, repetitions, evaluators, namespaces, successive models', rule_6),
 ]
